@@ -1,5 +1,7 @@
 import Driver.Util
 import OpusModel.ResetState
+import OpusModel.ResetDecode
+import OpusModel.ResetMs
 /-
   Suite `misc` — line protocol of OpusModel.ResetState (property C12), driven by harness/c12_state.c:
     misc encinit <Fs> <ch> <app> <arch> <silk_off> <celt_off>      → the 92 members after opus_encoder_init
@@ -7,6 +9,9 @@ import OpusModel.ResetState
     misc encset <92 members> <request> <value>                      → BAD_ARG or the members after the request
     misc decinit <Fs> <ch> <arch> <silk_off> <celt_off>            → the 29 decoder members after opus_decoder_init
     misc decreset <29 members>                                      → after OPUS_RESET_STATE
+    misc decstep <29 before> <29 after> <dataNull 0/1>              → ok | which structural claim of decodeStep the call violated
+    misc msreset <10 multistream members> <stream;stream;…>         → code, members and streams after the multistream reset
+    misc msdecreset <3 layout members> <stream;stream;…>            → likewise for the multistream decoder
   Member order: Enc.toList / Dec.toList (declaration order of the C structs; blobs as 1 = bitwise fresh).
 -/
 namespace Driver.SuiteMisc
@@ -38,6 +43,29 @@ def handle : List String → String
     match (parseIntList st).bind Dec.ofList with
     | some s => "RESET " ++ intList (decReset s).toList
     | none => "bad-op"
+  | ["decstep", pre, post, dn] =>
+    match (parseIntList pre).bind Dec.ofList, (parseIntList post).bind Dec.ofList, dn.toInt? with
+    | some a, some b, some d => decStepCheck a b (d ≠ 0)
+    | _, _, _ => "bad-op"
+  | ["msreset", ms, streams] =>
+    match parseIntList ms, (streams.splitOn ";").mapM (fun t => (parseIntList t).bind Enc.ofList) with
+    | some [nc, ns, ncp, arch, lfe, app, vd, mt, br, mz], some es =>
+      let m : MsEnc := { nbChannels := nc, nbStreams := ns, nbCoupled := ncp, mapping := [], arch, lfeStream := lfe,
+                         application := app, variableDuration := vd, mappingType := mt, bitrateBps := br,
+                         mems := Blob.ofInt mz, streams := es }
+      let r := msEncReset m
+      let o := r.1
+      s!"MSRESET {r.2.code} " ++ intList [o.nbChannels, o.nbStreams, o.nbCoupled, o.arch, o.lfeStream, o.application,
+                                          o.variableDuration, o.mappingType, o.bitrateBps, o.mems.toInt] ++ " " ++
+        ";".intercalate (o.streams.map (fun e => intList e.toList))
+    | _, _ => "bad-op"
+  | ["msdecreset", ms, streams] =>
+    match parseIntList ms, (streams.splitOn ";").mapM (fun t => (parseIntList t).bind Dec.ofList) with
+    | some [nc, ns, ncp], some ds =>
+      let r := msDecReset { nbChannels := nc, nbStreams := ns, nbCoupled := ncp, mapping := [], streams := ds }
+      s!"MSRESET {r.2.code} " ++ intList [r.1.nbChannels, r.1.nbStreams, r.1.nbCoupled] ++ " " ++
+        ";".intercalate (r.1.streams.map (fun d => intList d.toList))
+    | _, _ => "bad-op"
   | _ => "bad-op"
 
 end Driver.SuiteMisc
